@@ -32,6 +32,8 @@ CHECKS = {
          "TLA+ process protocol (Process.tla) model-checked; trace validation of real process runs with TLC", "6 (C11)"),
  "C20": ("translation_validation", "The specification has no feature parameter: the same specification-generated cases (CmdLine and GroupLine replay sets) are run by six builds of the harness ({}, autocomplete, autocomplete+docgen+batteries+derive, dull-color, bright-color, default) and class, value and monochrome text must be identical across builds and conform to the specification.",
          "differential execution of TLC-generated cases across six feature builds, each checked against the TLA+ outcome", "6 (C20)"),
+ "C14": (MC, "CmdLine.tla defines, for every viable state and partial last item, a lower bound MustOffer (visible names of the active level that extend a fresh prefix and are not already given; subcommand names that extend the typed word) and an upper bound MayOffer (visible matching names of the active or enclosing levels, completer values of the pending argument); TLC checks Must within May and enumerates every (state, partial); each request is run at revision 0 and the candidate set must lie between the bounds, the outcome being completion output.",
+         "TLA+ bounds MustOffer/MayOffer model-checked with TLC; replay of every (state, partial) completion request", "6 (C14)"),
 }
 NOTE = "Bounded: exhaustive within the stated constants, sampled beyond; trusted: TLC, the JSON reader, the dynamic builder (public bpaf API only)."
 
